@@ -64,6 +64,10 @@ def fmt(field, x):
 def report_mismatches(v, rr, describe, payload_of):
     """rr: ReplayResult; describe(pid, step) -> (op, cls); payload_of(pid) -> replay payload"""
     per = v.cov.setdefault("mismatches_per_key", {})
+    if rr.crashed:
+        rc, err, nlines = rr.crashed
+        v.violation("replay/crash", "the real cache code died with signal %s while stepping through behaviours of the specification "
+                    "(after %d report lines; %d mismatches reported before): %s" % (-rc, nlines, len(rr.mism), err[-300:]), None)
     for pid, step, t, pcb, field, exp, got in rr.mism:
         op, cls = describe(pid, step)
         key = mism_key(cls, op, field, exp, got)
@@ -209,13 +213,24 @@ def trace_validation(v, exe, n, nt, ops, seed, nexec, spurpct):
     def once():
         exe = L.harness()
         rc, lines, err = vlib.run_lines(exe, None, args=["random", str(n), str(nt), str(ops), str(seed), str(nexec), str(spurpct)], timeout=300)
+        if isinstance(rc, int) and rc < 0:
+            return ("crash", rc, err)
         if rc != 0 or not lines:
             raise Infra("lfcache_replay random failed rc=%s %s" % (rc, err[-1000:]))
         with open(path, "w") as f:
             f.write("\n".join(lines) + "\n")
         r = vlib.tlc("LFCacheTrace", cfg, workers=1, timeout=900, env={"TRACE": path}, keep_out=True, coverage=False)
         return lines, r
-    lines, r = once()
+    first = once()
+    if first[0] == "crash":
+        # the real cache code died under a schedule of the specification's alphabet (never seen on a sound tree); must repeat
+        second = once()
+        if second[0] != "crash":
+            raise Infra("lfcache_replay crashed once (rc=%s) but not on the re-run of %s" % (first[1], tag))
+        v.violation("trace/crash", "%s: the real cache code died with signal %s under a random schedule: %s" % (tag, -first[1], first[2][-400:]),
+                    {"kind": "trace", "n": n, "nt": nt, "ops": ops, "seed": seed, "nexec": nexec})
+        return 0
+    lines, r = first
     out = r.out
     accepted = (r.rc == 0 and "REJECTED" not in out and r.violated is None and r.distinct == len(lines) + 1)
     if not accepted:
@@ -290,6 +305,11 @@ def sequential(v, maxlen):
         exe = L.harness("lfcache_seq", defs)
         rc, out, err = vlib.run_lines(exe, text, timeout=300)
         done = [l for l in out if l.startswith("DONE")]
+        if isinstance(rc, int) and rc < 0 and out and out[0] == "VARIANT " + variant:
+            # the real cache died inside a sequential history of the specification (insert / get on one thread)
+            v.violation("sequential/%s/crash" % variant, "lfcache_seq (%s): the real cache code died with signal %s while executing sequential histories "
+                        "(capacity 1..%d, every insert/get sequence up to the bound): %s" % (variant, -rc, 4, err[-300:]), {"kind": "seq", "variant": variant})
+            continue
         if rc != 0 or not done or not out or out[0] != "VARIANT " + variant:
             raise Infra("lfcache_seq (%s) failed rc=%s %s %s" % (variant, rc, out[:2], err[-1000:]))
         _, nh, ncalls, nbad = done[0].split()
